@@ -17,8 +17,8 @@ RULE = (
     "fault enumeration: valid generated programs (a third of them with runs of statements moved into (nested) .include files) x 20 classes of definite error (invalid character, unterminated string, unknown keyword, "
     "missing brace, missing operand, undefined symbol in a sized operand / in data, undefined macro, too few macro arguments, unsupported "
     "addressing mode, unsupported width, out-of-range branch, unmapped address, missing .include/.incbin/.table/.include_ips file) inserted "
-    "at every statement position that is always expanded (thorough) or 6 positions (quick) x 4 entry points (string API, Program.assemble, "
-    "Program.assemble_as_patch, CLI in-process; CLI subprocess for a sample); each faulty run must fail visibly (error string / exception / "
+    "at every statement position that is always expanded (thorough) or 6 positions (quick) x 5 entry points (string API, Program.assemble, "
+    "Program.assemble_as_patch, CLI -f ips and -f sfc in-process; CLI subprocess for a sample); each faulty run must fail visibly (error string / exception / "
     "non-zero status, no 'Success'), each valid run must succeed with the full output; distinct by hash of (source, entry point); "
     "non-trivial = a fault was injected or the valid program was compared on all entry points"
 )
@@ -51,7 +51,7 @@ FAULTS = {
     "missing_table": ("semantic", ".table 'nofile_zz9.tbl'"),
     "missing_include_ips": ("semantic", ".include_ips 'nofile_zz9.ips', 0"),
 }
-ENTRIES = ["string", "assemble", "patch", "cli"]
+ENTRIES = ["string", "assemble", "patch", "cli", "cli_sfc"]
 
 
 def plan(tier: str, seed: int) -> list[dict]:
@@ -111,6 +111,8 @@ def run_entry(entry: str, src: str, files: dict, rom: str):
         fr = file_api("patch", src, files, rom, False)
     elif entry == "cli":
         fr = cli_inprocess("ips", src, files, rom)
+    elif entry == "cli_sfc":
+        fr = cli_inprocess("sfc", src, files, rom)
     else:
         fr = cli_subprocess("ips", src, files, rom)
     return fr.failed, fr.announces_success, f"status={fr.status} exc={fr.exc} {fr.exc_text[:80]}", fr, entry
@@ -135,7 +137,7 @@ def check_valid(res: Res, p: dict, src: str, files: dict, entries: list[str]) ->
         if obj.out is None:
             res.violate("success-without-output", f"{entry}: status 0 but no output file", wit)
             continue
-        if entry == "assemble":
+        if entry in ("assemble", "cli_sfc"):
             d = sfc_matches(obj.out, ref.blocks)
         else:
             img, why = image_of_ips(obj.out)
